@@ -334,12 +334,12 @@ Proof.
     { rewrite <- Hc, <- Hm. apply (ok_expr _ _ Hw); [assumption | assumption | rewrite Hc; exact Hen]. }
     cbv beta. intros ? v st1 (-> & Hc1 & Hm1) Hg1.
     assert (K : forall v0, v0 = v -> v <> VUndef ->
-      rel st1 ((ds <-- print_dirs cf w dirs ;;; s <-- lift (value_string v0) ;;; st <-- get ;;;
+      rel st1 ((ds <-- print_dirs cf w dirs v0 ;;; s <-- lift (value_string v0) ;;; st <-- get ;;;
                 ws <-- lift (print_writes (mode st) ds s) ;;; _ <-- write_all ws ;;; ret VUndef) st1)
-          ((ds <~~ sE (dirs_spec cf l en dirs) ;; s <~~ slift (value_string v0) ;;
+          ((ds <~~ sE (dirs_spec cf l en dirs v0) ;; s <~~ slift (value_string v0) ;;
             ws <~~ slift (print_writes md ds s) ;; semit (concat_b ws)) (next_id st1)) (@Qc value unit c md)).
     { intros v0 -> _.
-      eapply rel_bind; [apply (print_dirs_rel cf w l Hw en c md Hen dirs H2); assumption|].
+      eapply rel_bind; [apply (print_dirs_rel cf w l Hw en c md Hen dirs H2 v); assumption|].
       cbv beta. intros ? ds st2 (-> & Hc2 & Hm2) Hg2.
       eapply rel_bind; [apply (rel_lift _ _ (Qe c md)); [assumption | intros; split; [reflexivity | split; assumption]]|].
       cbv beta. intros ? s0 st3 (-> & Hc3 & Hm3) Hg3.
